@@ -10,6 +10,7 @@ import itertools
 
 from circuits.core.components import BaseComponent
 from circuits.core.handlers import handler
+from circuits.web.controllers import Controller
 from circuits.web.errors import notfound
 
 from mc import core, httpharness as hh
@@ -18,7 +19,7 @@ PROPERTY = 'C15'
 LEVEL = 'model_checking'
 RULE = ('case = body kind {empty str, str, bytes, list, list with None, returned generator (coroutine), streamed generator of str / of '
         'bytes / with empty items first-middle-last / many chunks, file object, file-like object with short reads, streamed list, non-streamed generator / tuple} x size {0, small with multi-byte '
-        'characters, 70 KiB} x status {200, 201, 204, 304, 404 via notfound(), 500 via raise} x HTTP/1.0 | 1.1 x Connection {absent, '
+        'characters, 70 KiB} x status {200, 201, 204, 304, 302 via a returned redirect event, 303 via raise Redirect, 403 via raise Forbidden, 404 via notfound(), 500 via raise} x entry {plain component handling `request`, Controller method behind the Dispatcher} x HTTP/1.0 | 1.1 x Connection {absent, '
         'keep-alive, close} x {GET, HEAD}; every single case and every sequence of 2 (thorough: 3 from a reduced menu) cases on one '
         'connection; non-trivial = every case; distinct = distinct case sequence')
 ASSUMPTIONS = [
@@ -107,34 +108,64 @@ class ShortReads:
         self.closed = True
 
 
+def handle(owner, req, res):
+    """the application: consumes one case of the plan per request (shared by the plain component and the Controller)"""
+    case = owner.plan.pop(0)
+    kind, size, status, version, conn, method = case
+    if status == 500:
+        owner.expect.append(None)
+        raise RuntimeError('application failure')
+    if status == 404:
+        owner.expect.append(None)
+        return notfound(req, res)
+    if status == 302:
+        # a redirect event handed back by the handler (what Controller.redirect() does)
+        owner.expect.append(None)
+        from circuits.web.errors import redirect
+        return redirect(req, res, ['/elsewhere'], 302)
+    if status == 303:
+        # ... and the exception flavour (its code is 303)
+        owner.expect.append(None)
+        from circuits.web.exceptions import Redirect
+        raise Redirect('/elsewhere')
+    if status == 403:
+        owner.expect.append(None)
+        from circuits.web.exceptions import Forbidden
+        raise Forbidden()
+    res.status = status
+    if kind == 'coroutine':
+        text = content(size)
+        owner.expect.append(text.encode('utf-8'))
+        return _coro(text)
+    value, data = make_body(kind, size, res)
+    owner.expect.append(data)
+    return value
+
+
+def _coro(text):
+    for part in chunks(text, 3):
+        yield part
+
+
 class App(BaseComponent):
+    """entry 'component': a plain component handling the request event itself"""
     channel = 'web'
     plan = None        # list of cases, consumed one per request
     expect = None
 
     @handler('request', priority=0.5)
     def _on_request(self, event, req, res, *a):
-        case = self.plan.pop(0)
-        kind, size, status, version, conn, method = case
-        if status == 500:
-            self.expect.append(None)
-            raise RuntimeError('application failure')
-        if status == 404:
-            self.expect.append(None)
-            return notfound(req, res)
-        res.status = status
-        if kind == 'coroutine':
-            text = content(size)
-            self.expect.append(text.encode('utf-8'))
-            return self._coro(text)
-        value, data = make_body(kind, size, res)
-        self.expect.append(data)
-        return value
+        return handle(self, req, res)
 
-    @staticmethod
-    def _coro(text):
-        for part in chunks(text, 3):
-            yield part
+
+class Ctl(Controller):
+    """entry 'controller': the usual way - an exposed Controller method found by the Dispatcher"""
+    channel = '/'
+    plan = None
+    expect = None
+
+    def x(self, *args, **kwargs):
+        return handle(self, self.request, self.response)
 
 
 def request_bytes(case):
@@ -166,11 +197,11 @@ def decode(data, method):
     return r, body, fs.f.tell()
 
 
-def run_sequence(seq):
-    app = App()
+def run_sequence(seq, entry='component'):
+    app = App() if entry == 'component' else Ctl()
     app.plan = list(seq)
     app.expect = []
-    w = hh.HttpWorld(controllers=(app,), dispatcher=False)
+    w = hh.HttpWorld(controllers=(app,), dispatcher=(entry == 'controller'))
     out = []
     try:
         sock = w.new_sock()
@@ -194,7 +225,7 @@ def judge(seq, out, expect):
     for i, case in enumerate(seq):
         kind, size, status, version, conn, method = case
         tag = '%s/%s/%d/%s/%s/%s' % (kind, size, status, version, conn or 'absent', method)
-        cls = '%s:%s:%s' % (kind if status < 400 else 'error%d' % status, 'HEAD' if method == 'HEAD' else version, conn or 'absent')
+        cls = '%s:%s:%s' % (kind if status < 300 or status == 304 else 'error%d' % status, 'HEAD' if method == 'HEAD' else version, conn or 'absent')
         o = out[i]
         if o[0] != 'resp':
             if not prev_closed:
@@ -273,7 +304,7 @@ def single_cases(tier):
                 for conn in (None, 'keep-alive', 'close'):
                     for method in ('GET', 'HEAD'):
                         yield (kind, 'zero', status, version, conn, method)
-    for status in (404, 500):
+    for status in (404, 500, 302, 303, 403):
         for version in ('1.0', '1.1'):
             for conn in (None, 'keep-alive', 'close'):
                 for method in ('GET', 'HEAD'):
@@ -306,13 +337,18 @@ def _work(part, nparts, payload):
     core.quiet_stderr()
     st = core.Stats()
     for idx, seq in enumerate(itertools.islice(sequences(tier), part, None, nparts)):
-        out, expect = run_sequence(seq)
+      for entry in ('component', 'controller'):
+        if entry == 'controller' and any(c[0] == 'coroutine' for c in seq):
+            continue      # (a Controller method is itself the handler; the coroutine kind is about handlers of the request event)
+        out, expect = run_sequence(seq, entry)
         st.executions += 1
         st.transitions += len(seq)
-        st.interesting(seq)
-        st.outcome(tuple((o[0], hh.strip_dates(o[1])[:300], o[2]) if o[0] == 'resp' else o for o in out))
+        st.interesting((entry, seq))
+        st.outcome((entry,) + tuple((o[0], hh.strip_dates(o[1])[:300], o[2]) if o[0] == 'resp' else o for o in out))
         if len(seq) > 1:
             st.counters['sequences_on_one_connection'] += 1
+        if entry == 'controller':
+            st.counters['sequences_through_dispatcher_and_controller'] += 1
         if any(o[0] == 'resp' and b'chunked' in o[1][:400] for o in out):
             st.counters['chunked_responses'] += 1
         if any(o[0] == 'resp' and o[2] for o in out):
@@ -321,14 +357,15 @@ def _work(part, nparts, payload):
             if kind == 'harness':
                 st.selfcheck_errors.append(text)
             else:
-                st.fail(kind, text, {'seq': [list(c) for c in seq]})
+                st.fail(kind + (':controller' if entry == 'controller' else ''), text + (' [through Dispatcher + Controller]' if entry == 'controller' else ''),
+                        {'seq': [list(c) for c in seq], 'entry': entry})
         if part == 0 and idx in (3, 40):
             st.sample({'case': list(seq[0]), 'response_head': out[0][1][:160].decode('latin1') if out[0][0] == 'resp' else None})
     return st
 
 
 def run(tier, seed, workers):
-    total = sum(1 for _ in sequences(tier))
+    total = sum(1 if any(c[0] == 'coroutine' for c in q) else 2 for q in sequences(tier))     # two entries, see _work
     st = core.parallel(_work, (tier, seed), workers, nparts=workers * 6)
     if st.executions != total:
         st.selfcheck_errors.append('enumeration: %d of %d' % (st.executions, total))
@@ -346,9 +383,9 @@ def run(tier, seed, workers):
 
 def replay(wj):
     seq = tuple(tuple(c) for c in wj['seq'])
-    out, expect = run_sequence(seq)
+    out, expect = run_sequence(seq, wj.get('entry', 'component'))
     bad = judge(seq, out, expect)
-    text = 'sequence %r\n' % (seq,)
+    text = 'sequence %r (entry: %s)\n' % (seq, wj.get('entry', 'component'))
     for o in out:
         text += '  %r\n' % ((o[0], o[1][:300], o[2], o[3]) if o[0] == 'resp' else o,)
     text += ''.join('VIOLATED %s: %s\n' % b for b in bad) or 'all clauses hold\n'
